@@ -529,6 +529,8 @@ def run(chk):
     chk.guard(rule_r10, chk)
     from . import c01
     chk.guard(c01.rule_r4, chk, rid="C03-R9")
+    from .. import unused as _unused
+    chk.guard(_unused.apply, chk, "C03-R91")
     from .. import args as _args
     chk.guard(_args.apply, chk, "C03-R90", {'fords'}, 1)
     chk.assumptions = [
